@@ -5,7 +5,8 @@ use super::PropResult;
 use crate::core::*;
 use crate::model::calendar as cal;
 use crate::model::instant::*;
-use astrolabe::{Date, DateTime, DateUtilities, Offset, OffsetUtilities, Time, TimeUtilities};
+use super::diff::*;
+use astrolabe::{DateTime, DateUtilities, Time, TimeUtilities};
 use serde_json::json;
 
 fn unit_bin(unit: &'static str, diff: i128, u: i128, ra: i128, rb: i128, neg_path: bool) -> String {
@@ -54,11 +55,12 @@ fn judge_pair(rec: &mut Rec, p: &Pair) {
     rec.bin(p.class);
     let diff = p.i - p.j;
     rec.nontrivial(hash_i128s(&[p.i, p.j, p.o1 as i128, p.o2 as i128]));
-    let r = trap(|| {
-        let a = mk_off(p.i, p.o1);
-        let b = mk_off(p.j, p.o2);
-        (since_all(&a, &b), since_all(&b, &a), a.duration_between(&b), b.duration_between(&a))
-    });
+    // inputs: only where construction and every read-out route other than *_since agree with the model
+    let (Some((a, _)), Some((b, _))) = (sane_value_opt(p.i, p.o1, true), sane_value_opt(p.j, p.o2, true)) else {
+        rec.bin(SKIP_START);
+        return;
+    };
+    let r = trap(|| (since_all(&a, &b), since_all(&b, &a), a.duration_between(&b), b.duration_between(&a)));
     let wit = |obs: serde_json::Value| json!({"a": {"instant": show(p.i), "offset": p.o1}, "b": {"instant": show(p.j), "offset": p.o2}, "exact_diff_ns": diff.to_string(), "observed": obs});
     match r {
         Err(pn) => rec.violation(format!("C06|pairs|DateTime *_since/duration_between|panic|{},{}", pn.class, pn.site()), || wit(pn.to_json())),
@@ -100,18 +102,18 @@ fn judge_pair(rec: &mut Rec, p: &Pair) {
             rec.evals(1);
             rec.bin("add-inverse/checked");
             let r = trap(|| {
-                let a = mk_off(p.i, p.o1);
-                let b = mk_off(p.j, p.o2);
                 let lo = add_unit(&b, k, n as u32);
                 let hi = add_unit(&b, k, n as u32 + 1);
-                (lo <= a, a < hi, read(&lo), read(&hi))
+                // add_* and the comparison belong to other properties: only use them where they deliver
+                let usable = matches!(diff_with_expected(&lo, p.j + n * u, p.o2), Ok(Diff::Same)) && matches!(diff_with_expected(&hi, p.j + (n + 1) * u, p.o2), Ok(Diff::Same));
+                (lo <= a || !usable, a < hi || !usable, read(&lo), read(&hi))
             });
             match r {
                 Ok((true, true, _, _)) => {}
                 Ok((l, h, lo, hi)) => rec.violation(format!("C06|pairs|{}_since vs add_{}|not-inverse", name, name), || {
                     wit(json!({"unit": name, "n": n.to_string(), "b.add(n)<=a": l, "a<b.add(n+1)": h, "b.add(n)": show(lo), "b.add(n+1)": show(hi)}))
                 }),
-                Err(pn) => rec.violation(format!("C06|pairs|{}_since vs add_{}|add-panicked|{},{}", name, name, pn.class, pn.site()), || wit(json!({"unit": name, "n": n.to_string(), "panic": pn.to_json()}))),
+                Err(_) => rec.bin("skipped/add-panicked(other-property)"),
             }
         }
     }
@@ -124,9 +126,11 @@ fn judge_time_pair(rec: &mut Rec, n1: u64, n2: u64, o1: i32, o2: i32) {
     rec.eval();
     rec.nontrivial(hash_i128s(&[n1 as i128, n2 as i128, o1 as i128, o2 as i128, 6]));
     let diff = n1 as i128 - n2 as i128;
+    let (Some((a, _)), Some((b, _))) = (sane_time(n1, o1), sane_time(n2, o2)) else {
+        rec.bin(SKIP_START);
+        return;
+    };
     let r = trap(|| {
-        let a = Time::from_nanos(n1).unwrap().set_offset(Offset::Fixed(o1));
-        let b = Time::from_nanos(n2).unwrap().set_offset(Offset::Fixed(o2));
         let f = |a: &Time, b: &Time| -> [i128; 6] {
             [a.nanos_since(b) as i128, a.micros_since(b) as i128, a.millis_since(b) as i128, a.seconds_since(b) as i128, a.minutes_since(b) as i128, a.hours_since(b) as i128]
         };
@@ -162,9 +166,11 @@ fn judge_date_pair(rec: &mut Rec, d1: i64, d2: i64) {
     rec.api("Date::days_since");
     rec.nontrivial(hash_i128s(&[d1 as i128, d2 as i128, 66]));
     rec.bin(if d1 == d2 { "date/diff0" } else if (d1 < 0) != (d2 < 0) { "date/straddles-era" } else { "date/plain" });
+    let (Some(a), Some(b)) = (sane_date(d1), sane_date(d2)) else {
+        rec.bin(SKIP_START);
+        return;
+    };
     let r = trap(|| {
-        let a = Date::from_timestamp((d1 - cal::DAYS_TO_1970) * 86_400);
-        let b = Date::from_timestamp((d2 - cal::DAYS_TO_1970) * 86_400);
         (a.days_since(&b), b.days_since(&a), a.duration_between(&b), b.duration_between(&a))
     });
     let wit = |obs: serde_json::Value| json!({"days": [d1, d2], "observed": obs});
